@@ -16,6 +16,28 @@ CLAIMS = {
          "and the codecs are exact. Thorough adds the inductive protocol lemma (lemmas/gbn_delivery.smt2.tmpl) for every s in 2..255.",
          "The protocol lemma assumes atomicity of each queue operation, FIFO transport per direction and a single Send caller; goroutine/timer "
          "interleavings are not explored (only through that assumption). One explicit ownership assumption: a packet received from sendDataChan is not already queued."),
+ "C02": ("Per-record clauses proved for every record, key state and input byte string: a Read/ReadMessage returns plaintext only after exactly two AEAD opens "
+         "(length header, body) that both authenticated under the receiver's current (key, nonce) pair; every open, successful or not, advances the receive "
+         "state by the same spec function csnext that advances the sender's state per seal (lock step); on any failed open the caller gets an error and no "
+         "data (nil); a buffered record tail is handed out without any decryption; split() gives initiator and responder complementary, direction-separated "
+         "keys (send = HKDF block 0 / receive = block 1 for the initiator, swapped for the responder); the AEAD output buffer is never shared with a scratch buffer.",
+         "The step from these clauses to 'the reader sees a prefix of what the peer wrote' is the standard AEAD argument (an open under (key, nonce) succeeds only "
+         "on the ciphertext sealed under that pair - ciphertext integrity, assumed, not proved) plus induction over the record index: a paper argument in "
+         "DESIGN.md, not a machine-checked lemma. Adversarial edit scripts are not enumerated; they are all inputs of the symbolic reader."),
+ "C03": ("DoHandshake is verified for the four concrete role/pattern combinations (XX/KK x initiator/responder, wrappers verifXXResponder ...) with the real pattern "
+         "tables obtained by symbolic execution of the package initialisers: the responder writes nothing to the transport before the first AEAD open (the MAC "
+         "of act 1) succeeded; traffic keys exist (split ran) and a nil error is returned only if every open of the handshake succeeded and exactly the expected "
+         "number happened (3, 3/2, 1, 2); ConnData.remoteKey/authData change only after the keys exist; SetRemote/SetAuthData keep the old value when the callback "
+         "rejects; DecryptAndHash reports an error iff the open failed and then leaves the transcript hash unchanged.",
+         "That a wrong passphrase or a wrong static key makes the MAC fail is a property of SPAKE2 masking, ECDH and ChaCha20-Poly1305 (ekeMask/ekeUnmask are "
+         "trusted, point arithmetic is not modelled); what is proved is that nothing is released or installed unless the MACs verified."),
+ "C04": ("Transcript mechanics proved per function: mixHash sets h := SHA-256(h || data); mixKey derives (ck, k) := HKDF(ck, input) and keys the cipher with k; "
+         "EncryptAndHash/DecryptAndHash use the running hash as associated data, the current (key, nonce), and absorb the ciphertext; per role: the responder's "
+         "version never changes and act 3 must carry it, the initiator adopts only a version inside [min, max]; on success the initiator's auth data is exactly "
+         "the decrypted act-2 payload; the remote static key is published iff version >= 2 and is the key decrypted in the handshake; split is complementary.",
+         "Known finding F3 (recorded, demonstrated by findings/f3_version_byte_unauthenticated_test.go): the cleartext version byte of each act is not part of the "
+         "transcript, so an active attacker can make both sides complete with different negotiated versions. Agreement of the two parties' views is a two-party "
+         "statement; it follows from the per-party clauses only under the AEAD/hash idealisation (paper argument)."),
  "C07": ("Every run-time panic obligation (index, slice bounds, nil dereference, division by zero, failing type assertion, close of closed channel, "
          "negative make) generated from the relay-facing functions of gbn (Deserialize, both handshakes, the receive loop, queue and syncer, timeout "
          "manager) and of mailbox (MsgData.Deserialize, connKit.Read, Noise readers) is discharged for arbitrary input bytes, and the window "
